@@ -112,6 +112,9 @@ var c19RaiseKinds = []struct {
 	{"binding-raises", `manifest.get(CR.REPO .. ":c19-no-such-tag")`, false},
 	{"binding-argerror", `tag.ls(12345, {})`, false},
 	{"timeout-loop", `while true do tag.ls(CL.REPO) end`, true},
+	// a binding that takes a slot of the shared script throttle and raises while it holds it
+	{"throttled-binding-raises-on-index", `image.config(manifest.getList(CR.REPO .. ":v1"))`, false},
+	{"throttled-binding-raises-on-head", `image.config(manifest.head(CR.REPO .. ":v1"))`, false},
 }
 
 // c19Case is one enumerated case; it is also the replay payload.
@@ -306,7 +309,9 @@ func c19Build(c c19Case, p c19Paths, strip bool) []c19Script {
 		if rk.Timeout {
 			sa.TimeoutMs = 40
 		}
-		return []c19Script{sa, {Name: "c19-B", Text: b.String(), Positions: pb}}
+		// script B normally takes milliseconds; should a resource of script A still be held (a throttle
+		// slot), B would wait for it until its timeout, which is therefore kept short
+		return []c19Script{sa, {Name: "c19-B", Text: b.String(), Positions: pb, TimeoutMs: 4000}}
 	}
 	return nil
 }
